@@ -1,9 +1,10 @@
 (* Properties_C18.v — C18: the concurrent map behaves like an ordinary map.
    Sequential half: every operation sequence on the bucketed map is a run of the ordinary-map
    specification (spec_step: insert/erase/find/empty/data/clear on a function Z -> option Z).
-   Concurrent half (lock protocol regenerated from the source): see the theorems imported from
-   P_C18c below. *)
-From Via Require Import M_HashMap P_C18.
+   Concurrent half: the lock protocol is regenerated from the source (Gen_Locks.v); the C18_conc_*
+   theorems hold for every schedule of any number of threads calling the public member functions. *)
+From Via Require Import M_HashMap P_C18 M_Locks M_Conc P_Conc Gen_Locks P_C18c.
+From Coq Require Import String.
 Local Open Scope Z_scope.
 
 (* every sequential history, any hash function, any positive number of buckets *)
@@ -21,7 +22,7 @@ Theorem C18_erase_only_key : forall m k, wf m -> forall k', k' <> k -> abs (hm_e
 Proof. exact C18_erase_only_key_lemma. Qed.
 
 Theorem C18_erase_removes_key : forall m k, wf m -> abs (hm_erase m k) k = None.
-Proof. intros m k H. rewrite abs_erase by exact H. unfold upd. rewrite Z.eqb_refl. reflexivity. Qed.
+Proof. intros m k H. rewrite abs_erase by exact H. unfold P_C18.upd. rewrite Z.eqb_refl. reflexivity. Qed.
 
 (* non-vacuity: a reachable state with an adjacent larger key in the same bucket; erasing the
    absent key 2 leaves 3 in place (the historical failing history) *)
@@ -33,6 +34,85 @@ Proof. vm_compute. reflexivity. Qed.
 Example C18_example_wf : wf (hm_insert (hm_insert (hm_empty_map id_hash 2) 1 10) 3 30).
 Proof. apply wf_insert, wf_insert, wf_init. lia. Qed.
 
+(* ---- concurrent half ---- *)
+Local Close Scope Z_scope.
+Local Open Scope nat_scope.
+(* the member functions as they are written now follow the protocol (checked by computation over the
+   statements translate/locks.py read off the AST) *)
+Theorem C18_conc_source_follows_protocol : api_ok methods api default_buckets = true.
+Proof. exact source_follows_protocol. Qed.
+
+(* an exclusive holder of a bucket is its only holder *)
+Theorem C18_conc_exclusive_is_alone : forall s0 sched, api_init s0 ->
+  forall b t u k, In (b, Ex) (t_held (c_thr (crun sched s0) t)) -> In (b, k) (t_held (c_thr (crun sched s0) u)) -> u = t.
+Proof. intros s0 sched H. apply inv_exclusive, api_reachable_inv, H. Qed.
+
+(* what a thread has read from a bucket it still holds is what the bucket contains now *)
+Theorem C18_conc_view_is_current : forall s0 sched, api_init s0 ->
+  forall t b d, t_view (c_thr (crun sched s0) t) b = Some d -> holds b (t_held (c_thr (crun sched s0) t)) = true ->
+  c_data (crun sched s0) b = d.
+Proof. intros s0 sched H. apply inv_V, api_reachable_inv, H. Qed.
+
+(* empty() / data(): once every bucket has been read under its lock, the views together are the map as
+   it is at this instant *)
+Theorem C18_conc_snapshot_is_atomic : forall s0 sched, api_init s0 -> forall t bs,
+  (forall b, In b bs -> holds b (t_held (c_thr (crun sched s0) t)) = true /\ t_view (c_thr (crun sched s0) t) b <> None) ->
+  map (t_view (c_thr (crun sched s0) t)) bs = map (fun b => Some (c_data (crun sched s0) b)) bs.
+Proof. intros s0 sched H. apply inv_snapshot, api_reachable_inv, H. Qed.
+
+(* no step of another thread changes a bucket a thread holds a lock on *)
+Theorem C18_conc_locked_bucket_is_stable : forall s0 sched, api_init s0 -> forall t u b s',
+  holds b (t_held (c_thr (crun sched s0) t)) = true -> u <> t -> cstep (crun sched s0) u = Some s' ->
+  c_data s' b = c_data (crun sched s0) b.
+Proof. intros s0 sched H. apply inv_stable, api_reachable_inv, H. Qed.
+
+(* insert / erase / clear: what is written is computed from the bucket's current contents and nothing
+   else changes: an atomic read-modify-write *)
+Theorem C18_conc_write_is_atomic : forall s0 sched, api_init s0 -> forall t b r s',
+  t_cur (c_thr (crun sched s0) t) = Wr b :: r -> cstep (crun sched s0) t = Some s' ->
+  c_data s' b = t_wf (c_thr (crun sched s0) t) b (t_view (c_thr (crun sched s0) t)) /\
+  (forall b', b' <> b -> c_data s' b' = c_data (crun sched s0) b') /\
+  (forall b' d, t_view (c_thr (crun sched s0) t) b' = Some d -> holds b' (t_held (c_thr (crun sched s0) t)) = true ->
+                d = c_data (crun sched s0) b').
+Proof. intros s0 sched H. apply inv_write, api_reachable_inv, H. Qed.
+
+(* while any of finitely many threads has work left, some thread can move *)
+Theorem C18_conc_no_deadlock : forall s0 sched N, api_init s0 ->
+  (forall t, N <= t -> t_cur (c_thr (crun sched s0) t) = []) ->
+  (exists t, t_cur (c_thr (crun sched s0) t) <> [] \/ t_todo (c_thr (crun sched s0) t) <> []) ->
+  exists u, enabled (crun sched s0) u = true.
+Proof. intros s0 sched N H. apply no_deadlock, api_reachable_inv, H. Qed.
+
+(* non-vacuity: thread 0 inserts (0,5) while thread 1 takes a snapshot; under this schedule the reader
+   holds all 19 buckets before the writer gets bucket 0 *)
+Definition ex_ins : nat -> view_t -> bdata := fun _ _ => [(0, 5)%Z].
+Definition ex_thread (todo : list op) : thread :=
+  {| t_cur := []; t_wf := fun _ _ => []; t_view := fun _ => None; t_held := []; t_rel := false; t_todo := todo |}.
+Definition ex_s0 : cstate :=
+  {| c_data := fun _ => []; c_locks := fun _ => [];
+     c_thr := fun t => match t with
+                       | O => ex_thread [api_op "insert" 0 ex_ins]
+                       | S O => ex_thread [api_op "data" 0 (fun _ _ => [])]
+                       | _ => ex_thread [] end |}.
+Example C18_conc_example_init : api_init ex_s0.
+Proof.
+  split; [reflexivity|]. intros [|[|t]]; (split; [reflexivity|]); (split; [reflexivity|]); (split; [reflexivity|]); simpl.
+  - constructor; [|constructor]. exists "insert"%string, O, ex_ins. repeat split. vm_compute. tauto. vm_compute. lia.
+  - constructor; [|constructor]. exists "data"%string, O, (fun _ _ => []). repeat split. vm_compute. tauto. vm_compute. lia.
+  - constructor.
+Qed.
+Example C18_conc_example_run :
+  let s := crun (repeat 1 20 ++ [0; 0; 0] ++ repeat 1 57 ++ repeat 0 10) ex_s0 in
+  c_data s 0 = [(0, 5)%Z] /\ t_view (c_thr s 1) 0 = Some [] /\ t_cur (c_thr s 0) = [] /\ t_cur (c_thr s 1) = [].
+Proof. vm_compute. repeat split. Qed.
+
 Print Assumptions C18_seq_refines.
 Print Assumptions C18_step_refines.
 Print Assumptions C18_erase_only_key.
+Print Assumptions C18_conc_source_follows_protocol.
+Print Assumptions C18_conc_exclusive_is_alone.
+Print Assumptions C18_conc_view_is_current.
+Print Assumptions C18_conc_snapshot_is_atomic.
+Print Assumptions C18_conc_locked_bucket_is_stable.
+Print Assumptions C18_conc_write_is_atomic.
+Print Assumptions C18_conc_no_deadlock.
